@@ -103,12 +103,32 @@ func runHist(ci interface{}, s *vkit.Stats) error {
 	usedHere := false
 	restores, reapply, multi := 0, 0, 0
 
+	// a user may look the mocker up afresh for every instruction or keep the object returned earlier and go on
+	// using it, also after it was cancelled: both must work
+	type keptKey struct {
+		b, h int
+		fn   *corpus.Fn
+	}
+	type keptHandles struct {
+		mk mocker.Mocker
+		em mocker.ExportedMocker
+	}
+	kept := map[keptKey]keptHandles{}
+	useKept := false
+	curB := 0
 	handle := func(b *mocker.Builder, fn *corpus.Fn, h int) (mocker.Mocker, mocker.ExportedMocker) {
+		key := keptKey{curB, h, fn}
+		if kh, ok := kept[key]; ok && useKept {
+			s.Class("instruction-through-a-kept-handle")
+			return kh.mk, kh.em
+		}
 		if h == 0 {
 			m := b.Func(fn.Fn)
+			kept[key] = keptHandles{m, m}
 			return m, m
 		}
 		um := b.Pkg(corpus.PkgPath).ExportFunc(fn.Name)
+		kept[key] = keptHandles{um, nil}
 		return um, nil
 	}
 	// after every step: the image invariant, and behaviour of every target of the window
@@ -205,7 +225,9 @@ func runHist(ci interface{}, s *vkit.Stats) error {
 		t := st[ti]
 		b := bs[bi]
 		ow := owner{bi, h}
-		what := fmt.Sprintf("%s %s builder %d handle %d", op.K, fn.Name, bi, h)
+		curB = bi
+		useKept = vkit.Pick(op.I[4], 3) == 0
+		what := fmt.Sprintf("%s %s builder %d handle %d kept=%v", op.K, fn.Name, bi, h, useKept)
 		var pv interface{}
 		switch op.K {
 		case "apply", "ret", "origin":
@@ -298,6 +320,11 @@ func runHist(ci interface{}, s *vkit.Stats) error {
 				}
 			}
 			bs[bi] = mocker.Create()
+			for k := range kept {
+				if k.b == bi {
+					delete(kept, k)
+				}
+			}
 			fp = append(fp, "R")
 		case "neighbours":
 			// functions next to the window were never mocked: they must behave as ever
